@@ -378,21 +378,31 @@ def aligned_angle_ref_rule1(decay_group, decay_chain_struct, decay_data, data):
     return set_x, ref_matrix_final
 
 
-def aligned_angle_ref_rule2(decay_group, decay_chain_struct, decay_data, data):
+def aligned_angle_ref_rule2(
+    decay_group,
+    decay_chain_struct,
+    decay_data,
+    data,
+    base_z=np.array([[0.0, 0, 1]]),
+    base_x=np.array([[1.0, 0, 0]]),
+):
     # calculate aligned angle of final particles in each decay chain
     set_x = {}  # reference particles
     ref_matrix = {}
 
     ref_matrix_final = {}
+    p_top = data[decay_group.top]["p"]
     for i in decay_group.outs:
         set_x[i] = (
             None,
             {"x": np.array([[1.0, 0, 0]]), "z": np.array([[0.0, 0, 1]])},
         )
-        p = data[i]["p"]
+        # the reference is defined in the rest frame of the top particle,
+        # with the same base axes as the decay chains
+        p = LorentzVector.rest_vector(p_top, data[i]["p"])
         ang, _ = EulerAngle.angle_zx_z_getx(
-            np.array([[0.0, 0, 1]]),
-            np.array([[1.0, 0, 0]]),
+            base_z,
+            base_x,
             LorentzVector.vect(p),
         )
         Bp = SU2M.Boost_z_from_p(LorentzVector.neg(p))
@@ -442,7 +452,7 @@ def cal_angle_from_particle(
         decay_data[i] = data_i
     if align_ref == "center_mass":
         set_x, ref_matrix_final = aligned_angle_ref_rule2(
-            decay_group, decay_chain_struct, decay_data, data
+            decay_group, decay_chain_struct, decay_data, data, base_z=base_z
         )
     else:
         set_x, ref_matrix_final = aligned_angle_ref_rule1(
